@@ -109,6 +109,7 @@ def judge(ctx, execs, tally):
 
 
 def main(tier):
+    from . import c02
     return sweep.run_lp_check(
         PID, LEVEL, tier, judge,
         "every instance x option vector; every optimal class at the last solve, so for "
@@ -117,6 +118,7 @@ def main(tier):
         extra=lambda t: {k: t.c.get(k, 0) for k in
                          ("result_texts_checked", "distinct_matchings",
                           "with_unassigned_student", "empty_matchings")},
+        interleave_opts=c02.INTERLEAVE_OPTS[:7],
         vacuity=lambda t: None if t.c.get("empty_matchings") and
         t.c.get("with_unassigned_student") else "no empty/partial matching seen")
 
